@@ -9,6 +9,7 @@ import (
 	"fmt"
 	"io"
 	"log"
+	"math"
 	"os"
 	"runtime"
 
@@ -209,6 +210,62 @@ func modelBodies(reps int) {
 	}
 }
 
+// gammaBodies: discrete-gamma rate categories and the incomplete gamma ratio are pure functions of their
+// arguments: called by several goroutines at once they give the values of the same calls made alone.
+func gammaBodies(reps int) {
+	type key struct {
+		a float64
+		k int
+	}
+	var keys []key
+	for _, a := range []float64{0.05, 0.3, 0.5, 1, 2, 10, 50} {
+		for _, k := range []int{2, 4, 8, 16} {
+			keys = append(keys, key{a, k})
+		}
+	}
+	render := func(a float64, k int) (res string) {
+		defer func() {
+			if r := recover(); r != nil {
+				res = fmt.Sprint("panic: ", r)
+			}
+		}()
+		var sb strings.Builder
+		for _, r := range models.DiscreteGamma(a, k) {
+			fmt.Fprintf(&sb, "%x,", r)
+		}
+		for _, x := range []float64{0.5, 1.5, a, a * 3, 40} {
+			lg, _ := math.Lgamma(a)
+			fmt.Fprintf(&sb, "%x,", models.IncompleteGamma(x, a, lg))
+		}
+		return sb.String()
+	}
+	want := make([]string, len(keys))
+	for i, k := range keys {
+		want[i] = render(k.a, k.k)
+	}
+	for r := 0; r < reps*30; r++ {
+		var wg sync.WaitGroup
+		got := make([]string, len(keys))
+		for w := 0; w < 8; w++ {
+			wg.Add(1)
+			go func(w int) {
+				defer wg.Done()
+				for i := w; i < len(keys); i += 8 {
+					got[i] = render(keys[i].a, keys[i].k)
+				}
+			}(w)
+		}
+		wg.Wait()
+		for i := range got {
+			if strings.HasPrefix(got[i], "panic: ") {
+				fmt.Println("RACEPASS-PANIC", got[i])
+			} else if got[i] != want[i] {
+				fmt.Println("RACEPASS-RESULT-DIFFERS")
+			}
+		}
+	}
+}
+
 func main() {
 	log.SetOutput(io.Discard)
 	what := os.Args[1]
@@ -224,6 +281,8 @@ func main() {
 			phylipStreamBodies(reps)
 		case "models":
 			modelBodies(reps)
+		case "gamma":
+			gammaBodies(reps)
 		}
 	}
 	fmt.Println("RACEPASS-DONE")
